@@ -117,6 +117,12 @@ func scenarios(indexed bool) []*eng.Scenario {
 				{ins("a", doc(eng.ID(1), "x", int64(4), "pad", strings.Repeat("r", 300))), ins("a", doc(eng.ID(2), "x", int64(5), "pad", strings.Repeat("s", 300)))},
 				{{K: "findById", Coll: "a", Id: u1}, {K: "findAll", Q: qOn("a", x(1))}},
 			}},
+		{Name: "S18-import-vs-creator-of-the-same-name" + suffix, Setup: with(),
+			Threads: [][]m.Op{
+				{{K: "import", Coll: "b", Text: s18File(), Docs: []m.Doc{doc(eng.ID(7), "x", float64(1)), doc(eng.ID(8), "x", float64(2))}}},
+				{{K: "createColl", Coll: "b"}, {K: "createIndex", Coll: "b", Field: "x"}, ins("b", doc(u1, "x", int64(1)))},
+				{{K: "count", Q: qOn("b", nil)}, {K: "findAll", Q: &m.Q{Coll: "b", Sort: sortBy("x", 1)}}},
+			}},
 		{Name: "S8-drop-index-vs-indexed-update" + suffix, Setup: with(ins("a", doc(u1, "x", int64(1)), doc(u2, "x", int64(2)))),
 			Threads: [][]m.Op{
 				{{K: "dropIndex", Coll: "a", Field: "x"}},
@@ -124,6 +130,16 @@ func scenarios(indexed bool) []*eng.Scenario {
 				{{K: "findAll", Q: &m.Q{Coll: "a", Sort: sortBy("x", -1)}}},
 			}},
 	}
+}
+
+var s18Path string
+
+// s18File: the JSON file scenario S18 imports (written once per process).
+func s18File() string {
+	if s18Path == "" {
+		s18Path = drv.WriteTemp("s18-import.json", `[{"_id":"`+eng.ID(7)+`","x":1},{"_id":"`+eng.ID(8)+`","x":2}]`)
+	}
+	return s18Path
 }
 
 // RacePass is run by the -race binary (bin/verif-race racepass).
@@ -196,7 +212,7 @@ func init() {
 		if only == "" {
 			runRaceBinary(run, tier)
 		} // first: cheap, and a data race explains most of what the exploration would then stumble over
-		nScen := 17
+		nScen := 18
 		for _, indexed := range []bool{false, true} {
 			for i, sc := range scenarios(indexed) {
 				if i >= nScen || !strings.HasPrefix(sc.Name, only) {
